@@ -378,7 +378,28 @@ func (r *Reader) parseWorksheet(data []byte, name string, index int) (*Sheet, er
 	}
 
 	// Apply merged region info to cells
+	//
+	// Every region is walked cell by cell, clipped to the grid. Merged regions of
+	// a sheet do not overlap, so together they cover at most the grid; a file may
+	// repeat <mergeCell ref="A1:XFD1048576"/> (32 bytes) any number of times,
+	// though, and each one walked the whole grid of up to 8 Mi cells: 400 of them
+	// took over a minute, 20000 (a 3 KB workbook) half an hour. Regions are
+	// therefore applied only while their cells add up to the size of the grid.
+	mergeBudget := maxRow * (maxCol + 1)
 	for _, mr := range sheet.MergedRegions {
+		endRow, endCol := mr.EndRow, mr.EndCol
+		if endRow > maxRow-1 {
+			endRow = maxRow - 1
+		}
+		if endCol > maxCol {
+			endCol = maxCol
+		}
+		if rows, cols := endRow-mr.StartRow+1, endCol-mr.StartCol+1; rows > 0 && cols > 0 {
+			if rows*cols > mergeBudget {
+				break
+			}
+			mergeBudget -= rows * cols
+		}
 		for row := mr.StartRow; row <= mr.EndRow && row < len(sheet.Rows); row++ {
 			for col := mr.StartCol; col <= mr.EndCol && col < len(sheet.Rows[row]); col++ {
 				cell := &sheet.Rows[row][col]
